@@ -372,6 +372,181 @@ theorem pairOne_dec_fits (e : EncOp) (d : DecOp) (it : Item) (hp : pairOne e d =
     · simp only [Except.ok.injEq] at hrun; subst hrun
       exact ⟨ho, ⟨f, _, rfl, rfl⟩, _, Rec.get?_set_self _ _ _, MapOK_nil.1, MapOK_nil.2⟩
 
+/-- the optional-parameter loop never un-consumes input -/
+theorem tlvLoop_len : ∀ (fuel : Nat) (r : Reader) (m : TlvMap), (readTlvLoop fuel r m).rd.rest.length ≤ r.rest.length
+  | 0, r, m => by simp [readTlvLoop]
+  | fuel+1, r, m => by
+    simp only [readTlvLoop]
+    split
+    · exact Nat.le_refl _
+    · have h1 := (readBytes_step r 4).len
+      generalize r.readBytes 4 = p1 at h1
+      obtain ⟨hd, r1⟩ := p1
+      simp only at h1 ⊢
+      split
+      · simpa [Reader.setErrNil] using h1
+      · exact h1
+      · generalize fromBe (hd.drop 2) = len
+        have h2 := (readBytes_step { r1 with alloc := r1.alloc + len } len).len
+        generalize Reader.readBytes { r1 with alloc := r1.alloc + len } len = p2 at h2
+        obtain ⟨v, r2⟩ := p2
+        simp only at h2 ⊢
+        split
+        · simp only [Reader.setErrNil]; omega
+        · show r2.rest.length ≤ r.rest.length; omega
+        · have := tlvLoop_len fuel r2 (m.upsert (fromBe (hd.take 2)) v); omega
+
+/-! ### how much of the input an item occupies -/
+
+/-- octets the item occupies on the wire, read off the PDU value -/
+def Item.wireLen (r : Rec) : Item → Nat
+  | .num k _ _ => k
+  | .cstr f => (r.str f).length + 1
+  | .fixedTrim _ n => n
+  | .fixedRaw _ n => n
+  | .fixedHexOut _ n => n
+  | .hexBoth _ n => n
+  | .body _ l _ => r.num l
+  | .rep _ c n _ _ => n * r.num c
+  | .asg _ _ => 0
+  | .tail _ _ => 0
+
+theorem repBytes_len (n : Nat) (l : List Bytes) (h : ∀ s ∈ l, s.length ≤ n) : (repBytes n l).length = n * l.length := by
+  induction l with
+  | nil => simp [repBytes]
+  | cons x xs ih =>
+    have hx := h x (by simp)
+    have := ih (fun s hs => h s (by simp [hs]))
+    simp only [repBytes, List.length_append, zeros_length, this, List.length_cons, Nat.mul_add]
+    omega
+
+/-- for a fitting PDU value the item's octets have exactly that length -/
+theorem fits_bytes_length (it : Item) (r : Rec) (hf : it.Fits r) (hnt : it.isTail = false) :
+    (it.bytes r).length = it.wireLen r := by
+  cases it with
+  | num k f c => simp [Item.bytes, Item.wireLen]
+  | cstr f => simp [Item.bytes, Item.wireLen]
+  | fixedTrim f n => obtain ⟨s, hs, _, hl⟩ := hf; simp [Item.bytes, Item.wireLen, Rec.str, hs]; omega
+  | fixedRaw f n => obtain ⟨s, hs, hl⟩ := hf; simp [Item.bytes, Item.wireLen, Rec.str, hs]; omega
+  | fixedHexOut f n => obtain ⟨s, hs, hl⟩ := hf; simp [Item.bytes, Item.wireLen, Rec.str, hs]; omega
+  | hexBoth f n =>
+    obtain ⟨b, hs, hl, hb⟩ := hf
+    simp [Item.bytes, Item.wireLen, Rec.str, hs, hexDecode_hexEncode b hb]; omega
+  | body f l d => obtain ⟨s, hs, hl⟩ := hf; simp [Item.bytes, Item.wireLen, Rec.str, Rec.num, hs, hl]
+  | rep f c n cn ap =>
+    obtain ⟨l, hs, hc, hl⟩ := hf
+    simp only [Item.bytes, Item.wireLen, Rec.strs, Rec.num, hs, hc]
+    exact repBytes_len n l (fun s hs' => (hl s hs').2)
+  | asg c as => simp [Item.bytes, Item.wireLen]
+  | tail f p => simp [Item.isTail] at hnt
+
+/-- an aligned decoder statement that ends without a reader error consumed the item's octets -/
+theorem pairOne_dec_consumes (e : EncOp) (d : DecOp) (it : Item) (hp : pairOne e d = some it)
+    (st st1 : DecState) (hrun : d.run st = .ok st1) (herr : st1.rd.err = none)
+    (hdeps : ∀ g ∈ it.deps, IsNumAt st.r g) (hdepsne : ∀ g ∈ it.deps, g ∉ it.sets) :
+    st1.rd.rest.length + it.wireLen st1.r ≤ st.rd.rest.length := by
+  unfold pairOne at hp
+  split at hp <;> (try (split at hp)) <;> simp at hp
+  all_goals (subst hp)
+  · rename_i k f k' f' hh
+    obtain ⟨rfl, rfl⟩ := hh
+    simp only [DecOp.run, Except.ok.injEq] at hrun; subst hrun
+    exact (readNum_step st.rd k).cons herr
+  · rename_i k k'' f k' f' hh
+    obtain ⟨rfl, rfl, rfl⟩ := hh
+    simp only [DecOp.run, Except.ok.injEq] at hrun; subst hrun
+    exact (readNum_step st.rd k).cons herr
+  · rename_i f f' hh
+    subst hh
+    simp only [DecOp.run, Except.ok.injEq] at hrun; subst hrun
+    have := readCString_consumes st.rd herr
+    simp only [Item.wireLen, Rec.str, Rec.get?_set_self]
+    omega
+  · rename_i f n f' n' hh
+    obtain ⟨rfl, rfl⟩ := hh
+    simp only [DecOp.run, Except.ok.injEq] at hrun; subst hrun
+    exact (readCStringN_step st.rd n).cons herr
+  · rename_i f n f' n' hh
+    obtain ⟨rfl, rfl⟩ := hh
+    simp only [DecOp.run, Except.ok.injEq] at hrun; subst hrun
+    exact (readCStringNRaw_step st.rd n).cons herr
+  · rename_i f n f' n' hh
+    obtain ⟨rfl, rfl⟩ := hh
+    simp only [DecOp.run, Except.ok.injEq] at hrun; subst hrun
+    exact (readCStringNRaw_step st.rd n).cons herr
+  · rename_i f n f' n' hh
+    obtain ⟨rfl, rfl⟩ := hh
+    simp only [DecOp.run, Except.ok.injEq] at hrun; subst hrun
+    exact (readCStringNRaw_step st.rd n).cons herr
+  -- body
+  · rename_i f f' l hh
+    subst hh
+    simp only [DecOp.run, Except.ok.injEq] at hrun; subst hrun
+    have hne : l ≠ f := by
+      have := hdepsne l (by simp [Item.deps]); simpa [Item.sets, Item.mentions] using this
+    have := (readNBytes_step st.rd ((Expr.fld l).eval st.r)).cons herr
+    simp only [Item.wireLen, Rec.num, Rec.get?_set_ne _ _ _ _ hne]
+    simpa [Expr.eval, Rec.num] using this
+  · rename_i f l f' l' hh
+    obtain ⟨rfl, rfl⟩ := hh
+    simp only [DecOp.run, Except.ok.injEq] at hrun; subst hrun
+    have hne : l ≠ f := by
+      have := hdepsne l (by simp [Item.deps]); simpa [Item.sets, Item.mentions] using this
+    have := (readNBytes_step st.rd ((Expr.fld l).eval st.r)).cons herr
+    simp only [Item.wireLen, Rec.num, Rec.get?_set_ne _ _ _ _ hne]
+    simpa [Expr.eval, Rec.num] using this
+  -- lists
+  · rename_i f n f' c n' hh
+    obtain ⟨rfl, rfl⟩ := hh
+    simp only [DecOp.run, Except.ok.injEq] at hrun; subst hrun
+    have hne : c ≠ f := by
+      have := hdepsne c (by simp [Item.deps]); simpa [Item.sets, Item.mentions] using this
+    have := readRep_consumes n ((Expr.fld c).eval st.r) { st.rd with alloc := st.rd.alloc + (Expr.fld c).eval st.r } [] herr
+    simp only [Item.wireLen, Rec.num, Rec.get?_set_ne _ _ _ _ hne]
+    simpa [Expr.eval, Rec.num] using this
+  · rename_i f n f' c n' hh
+    obtain ⟨rfl, rfl⟩ := hh
+    simp only [DecOp.run, Except.ok.injEq] at hrun; subst hrun
+    have hne : c ≠ f := by
+      have := hdepsne c (by simp [Item.deps]); simpa [Item.sets, Item.mentions] using this
+    have := readRep_consumes n ((Expr.fld c).eval st.r) st.rd [] herr
+    simp only [Item.wireLen, Rec.num, Rec.get?_set_ne _ _ _ _ hne]
+    simpa [Expr.eval, Rec.num] using this
+  · rename_i f c n f' c' n' hh
+    obtain ⟨rfl, rfl, rfl⟩ := hh
+    simp only [DecOp.run, Except.ok.injEq] at hrun; subst hrun
+    have hne : c ≠ f := by
+      have := hdepsne c (by simp [Item.deps]); simpa [Item.sets, Item.mentions] using this
+    have := readRep_consumes n ((Expr.fld c).eval st.r) { st.rd with alloc := st.rd.alloc + (Expr.fld c).eval st.r } [] herr
+    simp only [Item.wireLen, Rec.num, Rec.get?_set_ne _ _ _ _ hne]
+    simpa [Expr.eval, Rec.num] using this
+  · rename_i f c n f' c' n' hh
+    obtain ⟨rfl, rfl, rfl⟩ := hh
+    simp only [DecOp.run, Except.ok.injEq] at hrun; subst hrun
+    have hne : c ≠ f := by
+      have := hdepsne c (by simp [Item.deps]); simpa [Item.sets, Item.mentions] using this
+    have := readRep_consumes n ((Expr.fld c).eval st.r) st.rd [] herr
+    simp only [Item.wireLen, Rec.num, Rec.get?_set_ne _ _ _ _ hne]
+    simpa [Expr.eval, Rec.num] using this
+  -- optional parameters: whatever remains
+  · rename_i f f' hh
+    subst hh
+    simp only [DecOp.run, Except.ok.injEq] at hrun; subst hrun
+    simp only [Item.wireLen, Nat.add_zero]
+    by_cases ho : st.rd.rest.length = st.rd.rest.length
+    · -- the parser never un-consumes
+      unfold readTlvs
+      split
+      · exact Nat.le_refl _
+      · split
+        · exact Nat.le_refl _
+        · exact tlvLoop_len _ _ _
+    · exact absurd rfl ho
+  · rename_i f f' hh
+    subst hh
+    simp only [DecOp.run] at hrun
+    split at hrun <;> (simp only [Except.ok.injEq] at hrun; subst hrun; simp [Item.wireLen])
+
 /-- a recorded reader error survives every decoder statement -/
 theorem decOp_sticky (d : DecOp) (a b : DecState) (h : d.run a = .ok b) (hne : a.rd.err ≠ none) : b.rd.err ≠ none := by
   cases d with
@@ -422,6 +597,15 @@ theorem appends_sub (it : Item) : ∀ g ∈ it.appends, g ∈ it.sets := by
   | rep f c n cn ap => cases ap <;> simp [Item.appends, Item.sets, Item.mentions]
   | _ => simp [Item.appends]
 
+def wireSum (r : Rec) (its : List Item) : Nat := (its.map (·.wireLen r)).sum
+
+theorem wireLen_congr (it : Item) {a b : Rec} (h : AgreeOn it.mentions a b) : it.wireLen a = it.wireLen b := by
+  cases it <;> simp only [Item.wireLen, Item.mentions] at * <;>
+    first
+    | rfl
+    | (rw [str_congr (h _ (by simp))])
+    | (rw [num_congr (h _ (by simp))])
+
 def numOrAsg (it : Item) : Bool := it.isNum || it.isAsg
 
 theorem runDec_sticky : ∀ (ds : List DecOp) (a b : DecState), runDec ds a = .ok b → a.rd.err ≠ none → b.rd.err ≠ none := by
@@ -445,20 +629,22 @@ theorem runDec_fits (es : List EncOp) (ds : List DecOp) (its : List Item) (hp : 
     (herr : st'.rd.err = none ∨ its.all numOrAsg = true) (ho : Oct st.rd.rest)
     (hnums : ∀ g ∈ nums, IsNumAt st.r g) (hunt : Untouched its st.r) :
     (∀ g, g ∉ allSets its → st'.r.get? g = st.r.get? g) ∧
-      ∀ it ∈ its, it.isAsg = false → it.Fits st'.r := by
+      (∀ it ∈ its, it.isAsg = false → it.Fits st'.r) ∧
+      (st'.rd.err = none → st'.rd.rest.length + wireSum st'.r its ≤ st.rd.rest.length) := by
   fun_induction pairOps es ds generalizing its nums st with
   | case1 =>
     simp at hp; subst hp
     simp only [runDec, Except.ok.injEq] at hrun; subst hrun
-    exact ⟨fun _ _ => rfl, by simp⟩
+    exact ⟨fun _ _ => rfl, by simp, fun _ => by simp [wireSum]⟩
   | case2 f e es ds ih =>
     simp only [Option.map_eq_some_iff] at hp
     obtain ⟨its', hp', rfl⟩ := hp
     simp only [fitsOK, Item.exact, Item.deps, Item.sets, Item.isNum, List.all_nil, Bool.and_self, Bool.true_and,
       Bool.false_eq_true, if_false] at hok
-    obtain ⟨h2, h3⟩ := ih its' hp' nums hok st hrun (herr.imp id (fun h => by simpa [numOrAsg, Item.isAsg] using h))
+    obtain ⟨h2, h3, h4⟩ := ih its' hp' nums hok st hrun (herr.imp id (fun h => by simpa [numOrAsg, Item.isAsg] using h))
       ho hnums (by simpa [Untouched, allSets, Item.sets] using hunt)
-    refine ⟨fun g hg => h2 g (by simpa [allSets, Item.sets] using hg), fun it hit hna => ?_⟩
+    refine ⟨fun g hg => h2 g (by simpa [allSets, Item.sets] using hg), fun it hit hna => ?_,
+      fun he => by simpa [wireSum, Item.wireLen] using h4 he⟩
     simp only [List.mem_cons] at hit
     rcases hit with rfl | hit
     · simp [Item.isAsg] at hna
@@ -468,9 +654,10 @@ theorem runDec_fits (es : List EncOp) (ds : List DecOp) (its : List Item) (hp : 
     obtain ⟨its', hp', rfl⟩ := hp
     simp only [fitsOK, Item.exact, Item.deps, Item.sets, Item.isNum, List.all_nil, Bool.and_self, Bool.true_and,
       Bool.false_eq_true, if_false] at hok
-    obtain ⟨h2, h3⟩ := ih its' hp' nums hok st hrun (herr.imp id (fun h => by simpa [numOrAsg, Item.isAsg] using h))
+    obtain ⟨h2, h3, h4⟩ := ih its' hp' nums hok st hrun (herr.imp id (fun h => by simpa [numOrAsg, Item.isAsg] using h))
       ho hnums (by simpa [Untouched, allSets, Item.sets] using hunt)
-    refine ⟨fun g hg => h2 g (by simpa [allSets, Item.sets] using hg), fun it hit hna => ?_⟩
+    refine ⟨fun g hg => h2 g (by simpa [allSets, Item.sets] using hg), fun it hit hna => ?_,
+      fun he => by simpa [wireSum, Item.wireLen] using h4 he⟩
     simp only [List.mem_cons] at hit
     rcases hit with rfl | hit
     · simp [Item.isAsg] at hna
@@ -539,8 +726,18 @@ theorem runDec_fits (es : List EncOp) (ds : List DecOp) (its : List Item) (hp : 
           simp [hg] at this
         rw [hr1, strs_set_ne _ _ _ _ hgf]
         exact hunt g (by simp only [allSets, List.flatMap_cons, List.mem_append]; exact Or.inr (by simpa [allSets] using hg))
-      obtain ⟨h2, h3⟩ := ih its' hp' _ hrest st1 hrun herrT ho1 hnums' hunt'
-      refine ⟨?_, ?_⟩
+      obtain ⟨h2, h3, h4⟩ := ih its' hp' _ hrest st1 hrun herrT ho1 hnums' hunt'
+      have hframe : ∀ g ∈ it.mentions, st'.r.get? g = st1.r.get? g := by
+        intro g hg
+        have hnot : g ∉ allSets its' := by
+          rcases mentions_sub it g hg with h | h
+          · intro hin
+            have := hsr g h
+            simp [hin] at this
+          · have hgn : g ∈ nums := by simpa using hdn g h
+            exact fitsOK_nums_not_set its' _ hrest g (by split <;> simp [hgn])
+        exact h2 g hnot
+      refine ⟨?_, ?_, ?_⟩
       · intro g hg
         simp only [allSets, List.flatMap_cons, List.mem_append, not_or] at hg
         have hgf : g ≠ f := by intro e'; subst e'; exact hg.1 (by simp [hsets])
@@ -548,16 +745,18 @@ theorem runDec_fits (es : List EncOp) (ds : List DecOp) (its : List Item) (hp : 
       · intro x hxm hna
         simp only [List.mem_cons] at hxm
         rcases hxm with rfl | hxm
-        · refine x.fits_congr (fun g hg => ?_) hfit
-          have hnot : g ∉ allSets its' := by
-            rcases mentions_sub x g hg with h | h
-            · intro hin
-              have := hsr g h
-              simp [hin] at this
-            · have hgn : g ∈ nums := by simpa using hdn g h
-              exact fitsOK_nums_not_set its' _ hrest g (by split <;> simp [hgn])
-          exact h2 g hnot
+        · exact x.fits_congr hframe hfit
         · exact h3 x hxm hna
+      · intro he'
+        have he1 : st1.rd.err = none := by
+          cases hq : st1.rd.err with
+          | none => rfl
+          | some e' => exact absurd he' (runDec_sticky ds st1 st' hrun (by simp [hq]))
+        have hc1 := pairOne_dec_consumes e d it hpo st st1 h1 he1 hdeps hdepsne
+        have hc2 := h4 he'
+        have hw : it.wireLen st'.r = it.wireLen st1.r := wireLen_congr it hframe
+        simp only [wireSum, List.map_cons, List.sum_cons, hw] at hc2 ⊢
+        omega
   | case5 e es d ds hne1 hne2 hpo => simp [hpo] at hp
   | case6 es ds h1 h2 h3 h4 => simp at hp
 
@@ -745,6 +944,46 @@ theorem norm_fits (its : List Item) (hn : normOK its = true) (r : Rec)
   | rep f c n cn ap => exact norm_fits_other its hn r hf _ hit rfl rfl
   | tail f p => exact norm_fits_other its hn r hf _ hit rfl rfl
 
+/-! ### a count fix-up that a decoded PDU never triggers -/
+
+/-- every normalisation is `if len(p.list) != int(p.count) { p.count = … }` for a list item that
+    reads that very count (sgip12.Submit) -/
+def asgIdleOK (its : List Item) : Bool :=
+  its.all fun it => match it with
+    | .asg (some (.ne (.lenOf f) (.fld c))) _ =>
+      its.any fun x => match x with | .rep f' c' _ _ _ => f' == f && c' == c | _ => false
+    | .asg _ _ => false
+    | _ => true
+
+theorem norm_idle (all : List Item) (r : Rec) (hf : ∀ it ∈ all, it.isAsg = false → it.Fits r) :
+    ∀ (its : List Item), (∀ it ∈ its, it ∈ all) → asgIdleOK all = true → norm its r = r
+  | [], _, _ => rfl
+  | it :: rest, hsub, hok => by
+    have ih := norm_idle all r hf rest (fun x hx => hsub x (by simp [hx])) hok
+    cases it with
+    | asg c as =>
+      simp only [norm]
+      have hit := List.all_eq_true.1 hok (Item.asg c as) (hsub (Item.asg c as) (by simp))
+      -- the condition is false on a PDU whose list item fits
+      have hfalse : applyAsg c as r = r := by
+        cases c with
+        | none => simp at hit
+        | some cond =>
+          cases cond with
+          | ne a b =>
+            cases a <;> cases b <;> simp at hit
+            rename_i f cfld
+            obtain ⟨x, hx, hxm⟩ := hit
+            cases x <;> simp at hxm
+            rename_i f' c' n cn ap
+            obtain ⟨rfl, rfl⟩ := hxm
+            obtain ⟨l, hl, hc, _⟩ := hf _ hx rfl
+            simp [applyAsg, Cond.eval, Expr.eval, hl, Rec.num, hc]
+          | eq a b => simp at hit
+          | and a b => simp at hit
+      rw [hfalse]; exact ih
+    | _ => simp only [norm]; exact ih
+
 /-! ### whole decoders -/
 
 /-- the static check behind `decode_fits` -/
@@ -752,7 +991,7 @@ def PduDesc.checkDecodedFits (p : PduDesc) : Bool :=
   match p.items with
   | none => false
   | some (lf, its) =>
-    fitsOK [] its && (p.fin != .withLength || !(allSets its).contains lf) && normOK its &&
+    fitsOK [] its && (p.fin != .withLength || !(allSets its).contains lf) && (normOK its || asgIdleOK its) &&
     (p.ret != .nilAlways || its.all numOrAsg)
 
 theorem runDec_error (ds : List DecOp) : ∀ (st : DecState) (o : DecOutcome), runDec ds st = .error o →
@@ -772,10 +1011,12 @@ theorem runDec_error (ds : List DecOp) : ∀ (st : DecState) (o : DecOutcome), r
       · exact ⟨_, hd.symm⟩
 
 /-- **decode_fits**: whatever `IDecode` accepts satisfies the preconditions of `IEncode` (after the
-    encoder's own normalisation of its receiver) -/
+    encoder's own normalisation of its receiver); and — unless the decoder never reports errors — the
+    input contained every octet of every mandatory field the decoded PDU claims (`wireSum`) -/
 theorem decode_fits (p : PduDesc) (h : p.checkDecodedFits = true) (data : Bytes) (ho : Oct data) (r : Rec)
     (hdec : p.decode data = .ok r) :
-    ∃ lf its, p.items = some (lf, its) ∧ ∀ it ∈ its, it.Fits (norm its r) := by
+    ∃ lf its, p.items = some (lf, its) ∧ (∀ it ∈ its, it.Fits (norm its r)) ∧
+      (p.ret ≠ .nilAlways → wireSum r its + (if p.fin = .withLength then 4 else 0) ≤ data.length) := by
   unfold PduDesc.checkDecodedFits at h
   cases hitems : p.items with
   | none => simp [hitems] at h
@@ -783,7 +1024,17 @@ theorem decode_fits (p : PduDesc) (h : p.checkDecodedFits = true) (data : Bytes)
     obtain ⟨lf, its⟩ := pr
     simp only [hitems, Bool.and_eq_true, Bool.or_eq_true, bne_iff_ne, ne_eq, Bool.not_eq_true'] at h
     obtain ⟨⟨⟨hok, hlf⟩, hnorm⟩, hret⟩ := h
-    refine ⟨lf, its, rfl, norm_fits its hnorm r ?_⟩
+    suffices hboth : (∀ it ∈ its, it.isAsg = false → it.Fits r) ∧
+        (p.ret ≠ .nilAlways → wireSum r its + (if p.fin = .withLength then 4 else 0) ≤ data.length) by
+      obtain ⟨hfit, hcons⟩ := hboth
+      refine ⟨lf, its, rfl, ?_, hcons⟩
+      rcases hnorm with hn | hn
+      · exact norm_fits its hn r hfit
+      · rw [norm_idle its r hfit its (fun _ h => h) hn]
+        intro it hit
+        cases hia : it.isAsg with
+        | false => exact hfit it hit hia
+        | true => cases it <;> simp [Item.isAsg] at hia; trivial
     -- open the decoder
     unfold PduDesc.decode PduDesc.decodeInto at hdec
     split at hdec
@@ -797,35 +1048,37 @@ theorem decode_fits (p : PduDesc) (h : p.checkDecodedFits = true) (data : Bytes)
       | ok st' =>
         simp only [hrun] at hdec
         -- success means no reader error was left (or the layout is integers only)
-        have herr : (st'.rd.err = none ∨ its.all numOrAsg = true) ∧ r = st'.r := by
+        have herr : (st'.rd.err = none ∨ its.all numOrAsg = true) ∧ r = st'.r ∧ (p.ret ≠ .nilAlways → st'.rd.err = none) := by
           cases hr : p.ret with
           | nilAlways =>
             simp only [hr] at hdec
             simp only [Bool.false_eq_true, if_false, DecOutcome.ok.injEq] at hdec
             rcases hret with h' | h'
             · exact absurd hr h'
-            · exact ⟨Or.inr h', hdec.symm⟩
+            · exact ⟨Or.inr h', hdec.symm, fun h => absurd rfl h⟩
           | readerErr =>
             simp only [hr] at hdec
             split at hdec
             · simp at hdec
             · rename_i hf
               simp only [DecOutcome.ok.injEq] at hdec
-              refine ⟨Or.inl ?_, hdec.symm⟩
-              cases he : st'.rd.err with
-              | none => rfl
-              | some e => simp [he] at hf
+              have he : st'.rd.err = none := by
+                cases he : st'.rd.err with
+                | none => rfl
+                | some e => simp [he] at hf
+              exact ⟨Or.inl he, hdec.symm, fun _ => he⟩
           | readerOrParse =>
             simp only [hr] at hdec
             split at hdec
             · simp at hdec
             · rename_i hf
               simp only [DecOutcome.ok.injEq] at hdec
-              refine ⟨Or.inl ?_, hdec.symm⟩
-              cases he : st'.rd.err with
-              | none => rfl
-              | some e => simp [he] at hf
-        obtain ⟨herr, rfl⟩ := herr
+              have he : st'.rd.err = none := by
+                cases he : st'.rd.err with
+                | none => rfl
+                | some e => simp [he] at hf
+              exact ⟨Or.inl he, hdec.symm, fun _ => he⟩
+        obtain ⟨herr, rfl, herr2⟩ := herr
         unfold PduDesc.items at hitems
         split at hitems
         · -- length-prefixed: the first statement reads the length word
@@ -840,12 +1093,29 @@ theorem decode_fits (p : PduDesc) (h : p.checkDecodedFits = true) (data : Bytes)
             by_cases hg : g = lf'
             · subst hg; simp [Rec.strs, Rec.get?_set_self]
             · rw [strs_set_ne _ _ _ _ hg]; exact fresh_strs_nil p g
-          exact (runDec_fits p.enc ds its' hp [] hok _ st' hrun herr (Oct.of_step hs ho) (by simp) hunt).2
+          obtain ⟨_, r2, r3⟩ := runDec_fits p.enc ds its' hp [] hok _ st' hrun herr (Oct.of_step hs ho) (by simp) hunt
+          refine ⟨r2, fun hnil => ?_⟩
+          have he := herr2 hnil
+          have h3 := r3 he
+          -- the length word itself was there
+          have he1 : (Reader.readNum ⟨data, none, 0⟩ 4).2.err = none := by
+            cases hq : (Reader.readNum ⟨data, none, 0⟩ 4).2.err with
+            | none => rfl
+            | some e' => exact absurd he (runDec_sticky ds _ st' hrun (by simp [hq]))
+          have h4 := hs.cons he1
+          simp only [hfin, if_true] at h3 h4 ⊢
+          omega
         · rename_i ds hfin
           simp only [Option.map_eq_some_iff, Prod.mk.injEq] at hitems
           obtain ⟨its', hp, _, rfl⟩ := hitems
-          exact (runDec_fits p.enc (decBody p.dec) its' hp [] hok _ st' hrun herr ho (by simp)
-            (fun g _ => fresh_strs_nil p g)).2
+          obtain ⟨_, r2, r3⟩ := runDec_fits p.enc (decBody p.dec) its' hp [] hok _ st' hrun herr ho (by simp)
+            (fun g _ => fresh_strs_nil p g)
+          refine ⟨r2, fun hnil => ?_⟩
+          have h3 := r3 (herr2 hnil)
+          simp only [hfin] at h3 ⊢
+          simp only [reduceCtorEq, if_false, Nat.add_zero]
+          have : (⟨data, none, 0⟩ : Reader).rest.length = data.length := rfl
+          omega
         · simp at hitems
 
 end SmsVerif
